@@ -10,7 +10,7 @@ Nothing here matches source text, line numbers or block numbers."""
 import json
 import re
 
-from .lib import closure_args_of_call, closure_of_operand, operand_local
+from .lib import closure_of_operand, operand_local
 
 
 # ------------------------------------------------------------------------------------------------ closures and their use sites
@@ -497,3 +497,95 @@ def hasher_lineage(f, fin_term, ty_rx):
             else:
                 bad.append("state written by %s" % (node.get("rv", {}).get("rv") or kind))
     return lin, inits, bad
+
+
+# ------------------------------------------------------------------------------------------------ "a success is not forgotten"
+def blocks_after_success(f, groups, free_group, forced, avoid_edges=(), max_states=60000):
+    """Path exploration of `f` with concrete values for designated bool calls.  `groups` = {name: atoms}: the tests of
+    the list headers; the atoms of `free_group` take both outcomes at every evaluation, the atoms of the other groups
+    evaluate to true; `forced` = {atom: value} fixes further calls.  A group is *satisfied* on a path once one of its
+    atoms has evaluated to true.  Bool locals are tracked through constants, copies, `!`, `|`, `&`, `==`; a switch on a
+    known bool follows one edge, everything else follows all successors.  Returns (blocks reached with every group
+    satisfied, all blocks reached), or (None, None) if the budget is exceeded.  Used to decide that a flag computed
+    over several field lines cannot lose a match found on an earlier line."""
+    group_of = {a[1]: g for g, atoms in groups.items() for a in atoms}
+    fixed = {a[1]: v for a, v in forced.items()}
+    avoid = set(avoid_edges)
+    full = frozenset(groups)
+    seen = set()
+    hit, every = set(), set()
+    work = [(0, frozenset(), frozenset())]
+    n = 0
+
+    def val(env, op):
+        c = _const_bool(op)
+        if c is not None:
+            return c
+        l = operand_local(op)
+        return env.get(l) if l is not None else None
+    while work:
+        st = work.pop()
+        if st in seen:
+            continue
+        seen.add(st)
+        n += 1
+        if n > max_states:
+            return None, None
+        bb, envf, sat = st
+        every.add(bb)
+        if sat == full:
+            hit.add(bb)
+        env = dict(envf)
+        blk = f.blocks[bb]
+        for s in blk["st"]:
+            if s["s"] != "assign" or s["pl"]["p"]:
+                continue
+            l, rv = s["pl"]["l"], s["rv"]
+            v = None
+            if rv["rv"] == "use":
+                v = val(env, rv["op"])
+            elif rv["rv"] == "unop" and rv["op"] == "Not":
+                a = val(env, rv["a"])
+                v = (not a) if a is not None else None
+            elif rv["rv"] == "binop" and rv["op"] in ("BitOr", "BitAnd", "BitXor", "Eq", "Ne"):
+                a, b = val(env, rv["a"]), val(env, rv["b"])
+                o = rv["op"]
+                if a is not None and b is not None:
+                    v = {"BitOr": a or b, "BitAnd": a and b, "BitXor": a != b, "Eq": a == b, "Ne": a != b}[o]
+                elif o == "BitOr" and (a is True or b is True):
+                    v = True
+                elif o == "BitAnd" and (a is False or b is False):
+                    v = False
+            if v is None:
+                env.pop(l, None)
+            else:
+                env[l] = v
+        t = blk["term"]
+        outs = [(env, sat)]
+        if t["t"] == "call" and not t["dest"]["p"]:
+            d = t["dest"]["l"]
+            if bb in group_of:
+                g = group_of[bb]
+                e1 = dict(env)
+                e1[d] = True
+                outs = [(e1, sat | {g})]
+                if g == free_group:
+                    e2 = dict(env)
+                    e2[d] = False
+                    outs.append((e2, sat))
+            elif bb in fixed:
+                env[d] = fixed[bb]
+            else:
+                env.pop(d, None)
+        succs = [s for s in f.succ(bb) if (bb, s) not in avoid]
+        for env2, sat2 in outs:
+            nxt = succs
+            if t["t"] == "switch":
+                l = operand_local(t["discr"])
+                if l is not None and f.local_ty(l) == "bool" and l in env2:
+                    tb, fb = f.bool_edges(bb)
+                    nxt = [x for x in succs if x == (tb if env2[l] else fb)]
+            fe = frozenset(env2.items())
+            for x in nxt:
+                work.append((x, fe, sat2))
+    return hit, every
